@@ -82,7 +82,7 @@ def configs(draw, reps):
         "random_omitted": draw(st.sampled_from([False, False, True])),
         "gp_step": draw(st.sampled_from(["default", "crossover-heavy"])),
         "envs": [
-            {"hashseed": draw(st.sampled_from([0, 1, 4242, "random"])), "dummies": draw(st.sampled_from([0, 1, 7, 50, 333])), "imports": draw(st.permutations(MODULES))[: draw(st.integers(0, len(MODULES)))]}
+            {"hashseed": draw(st.sampled_from([0, 1, 4242, "random"])), "dummies": draw(st.sampled_from([0, 1, 7, 50, 333])), "imports": draw(st.permutations(MODULES))[: draw(st.integers(0, len(MODULES)))], "define_order": draw(st.sampled_from([0, 1, 2, 3]))}
             for _ in range(3)
         ],
     }
